@@ -211,6 +211,8 @@ LOOP:
 	for i := len(n.indexes); i < len(n.children); i++ {
 		child := n.children[i]
 		path := ctx.Path
+		// 同名的参数可能在此之前已经存在，比如由 Matcher 写入的，回退时需要还原而不是删除。
+		saved, exists := ctx.Get(child.segment.Name)
 
 		if !child.segment.Match(ctx) { // 不匹配
 			continue
@@ -221,7 +223,11 @@ LOOP:
 
 		// 不匹配子元素，则恢复原有数据
 		ctx.Path = path
-		ctx.Delete(child.segment.Name)
+		if exists {
+			ctx.Set(child.segment.Name, saved)
+		} else {
+			ctx.Delete(child.segment.Name)
+		}
 	}
 
 	// 没有子节点匹配，len(p.Path)==0，且子节点不为空，可以判定与当前节点匹配。
